@@ -382,6 +382,7 @@ func run(id string, cfg propCfg, tier string, seed uint64, replay, scratch strin
 	exit := 0
 	sort.Slice(viols, func(i, j int) bool { return viols[i].Viol.FP < viols[j].Viol.FP })
 	reported := 0
+	unreplayed := 0
 	for n, v := range viols {
 		if reported >= 5 {
 			break
@@ -397,6 +398,15 @@ func run(id string, cfg propCfg, tier string, seed uint64, replay, scratch strin
 			die2("write replay: %v", err)
 		}
 		if rc := doReplay(bin, id, path, false); rc != 1 {
+			if cfg.Race {
+				// the schedule replays exactly, but whether the detector still holds the earlier access in
+				// its bounded shadow history can differ between processes: a report that does not come
+				// back is not reported (never a violation that cannot be replayed)
+				fmt.Fprintf(os.Stderr, "check: race report %s did not come back when replayed in a fresh process: not reported\n", v.Viol.FP)
+				os.Remove(path)
+				unreplayed++
+				continue
+			}
 			fmt.Fprintf(os.Stderr, "check: violation %s did not reproduce exactly in a fresh process (nondeterminism in harness)\n", v.Viol.FP)
 			return 2
 		}
@@ -405,6 +415,7 @@ func run(id string, cfg propCfg, tier string, seed uint64, replay, scratch strin
 		reported++
 		exit = 1
 	}
+	tot.Extra["race_reports_not_reproduced_on_replay"] += int64(unreplayed)
 	wall := time.Since(start).Seconds()
 	writeEvidence(id, cfg, tier, seed, tot, len(distinct), len(viols), wall, nw, budget)
 	fmt.Printf("check %s tier=%s seed=%d: runs=%d distinct=%d capped=%d known=%d violations=%d wall=%.1fs\n", id, tier, seed, tot.Runs, len(distinct), tot.Capped, len(tot.Known), len(viols), wall)
